@@ -277,7 +277,11 @@ func (s *Solver) checkSat() SatResult {
 	s.in.WriteString("(check-sat)\n")
 	s.in.Flush()
 	line := s.readLine()
-	s.solveTime += time.Since(t0)
+	dt := time.Since(t0)
+	s.solveTime += dt
+	if dt > 2*time.Second && os.Getenv("SYMGO_SLOWQ") != "" {
+		fmt.Fprintf(os.Stderr, "SLOWQ %.1fs %s (query #%d)\n", dt.Seconds(), line, s.queries)
+	}
 	s.queries++
 	switch line {
 	case "sat":
